@@ -8,7 +8,8 @@ from mitmproxy import options as moptions
 from mitmproxy.connection import Server, ConnectionState
 from mitmproxy.proxy import server, mode_specs, layer, commands, events, server_hooks
 
-ADDR = {"a": ("a.test", 80), "b": ("b.test", 81), "-": None}
+ADDR = {"a": ("a.test", 80), "b": ("b.test", 81), "c": ("c.test", 82), "d": ("d.test", 83), "e": ("e.test", 84),
+        "f": ("f.test", 85), "g": ("g.test", 86), "h": ("h.test", 87), "-": None}
 HOOKN = {"client_connected": "cc", "client_disconnected": "cd", "server_connect": "sc", "server_connected": "sd",
          "server_connect_error": "se", "server_disconnected": "sx", "c09_custom": "hk"}
 
@@ -245,6 +246,12 @@ class Addons:
             data.error = "killed"
         if name == "sc" and cl in env.case.get("kill_server", []):
             data.server.error = "killed"
+        if name == "sc":
+            # an addon redirects the connection: data.server.address is rewritten in the server_connect hook
+            rw = env.case.get("rewrite", {})
+            to = rw.get(str(cl), rw.get("*"))
+            if to is not None and ADDR.get(to) is not None:
+                data.server.address = ADDR[to]
 
 
 class Master:
@@ -270,6 +277,10 @@ def make_handler_class(base):
             except asyncio.CancelledError:
                 env.rec("hookret", me, name, "cancel", 0); raise
             kill = 0
+            if name == "sc":
+                # the address the connection will be dialled at, as the hook left it
+                now = next((k for k, v in ADDR.items() if v == data.server.address), "?")
+                env.rec("dial", me, now)
             if name == "cc" and self.client.error: kill = 1
             if name == "sc" and data.server.error:     # open_connection's test: also an error left by an earlier attempt
                 kill = 1
